@@ -43,3 +43,11 @@ Proof. exact w_switch_to_primary_buffer_eq. Qed.
 Check C16_source_switch_to_primary : forall t, ZW t -> w_switch_to_primary_buffer Om (zabs t) (wabs t) = wres (switch_to_primary_buffer t).
 Print Assumptions C16_source_switch_to_primary.
 
+From Avt Require Import Proofs.StepC17.
+(** a clause of C17's statement that this property's text contains and its check evaluates on the implementation *)
+(** a soft reset while the alternate screen is showing leaves the parked primary's saved cursor - the one ?1049l restores - untouched (evaluated as `C16.decstr_parked_ctx`) *)
+Theorem C16_decstr_parked_ctx : forall p p' t t', TInv t -> execute t Decstr = Ok t' -> holds_C17 (mkVt p t) Decstr (mkVt p' t') = true.
+Proof. intros p p' t t'. exact (C17_holds p p' t Decstr t'). Qed.
+Check C16_decstr_parked_ctx : forall p p' t t', TInv t -> execute t Decstr = Ok t' -> holds_C17 (mkVt p t) Decstr (mkVt p' t') = true.
+Print Assumptions C16_decstr_parked_ctx.
+
